@@ -147,7 +147,7 @@ private theorem verifyBibLoop_ok (b : Bundle) (sb : SecBlock) :
         | _ :: _ :: _, hr => simp [ih, TargetOk, hr]
 
 /-- **C03 (whole block).** `CoseContext.verify_bib` returns "no failure" exactly when the block has
-    its parameters field, no empty result array, no duplicate parameter / result ids and, for every target, the target block exists, there is
+    no duplicate parameter / result ids and, for every target, the target block exists, there is
     exactly one result and its tag is the MAC of the MAC input (`TagOk`). -/
 theorem C03_verify_iff (b : Bundle) (sb : SecBlock) :
     verifyBib P store crcFn b sb = .ok ↔
@@ -286,16 +286,18 @@ example : ∃ m, applyMac0 C03ex.toyP C03ex.toyCrc C03ex.ctx [0xa1, 1, 5] [1] [9
 
 namespace C03ex
 def bundle : Bundle := ⟨prim, [payload, bibBlk]⟩
-def secBlock (tag : Bytes) (hasParams : Bool) : SecBlock :=
+def secBlock (tag : Bytes) (results2 : Bool) : SecBlock :=
   { blk := bibBlk, ssrc := ctx.ssrc, targets := [1], paramIds := [5], scope := ctx.scope, addlProt := [],
-    results := [[(17, .mac0 [0xa1, 1, 5] (some [1]) none tag)]], hasParams := hasParams }
+    results := [(17, .mac0 [0xa1, 1, 5] (some [1]) none tag) :: (if results2 then [(18, .mac0 [] none none [])] else [])] }
 end C03ex
 
-/-- whole block: the tag `apply_bib` computes verifies; a wrong tag fails with reason 15; the same
-    block without its (optional) parameters field raises -/
-example : verifyBib C03ex.toyP C03ex.toyStore C03ex.toyCrc C03ex.bundle (C03ex.secBlock [9, 9, 58] true) = .ok ∧
-    verifyBib C03ex.toyP C03ex.toyStore C03ex.toyCrc C03ex.bundle (C03ex.secBlock [9, 9, 0] true) = .failed 15 ∧
-    verifyBib C03ex.toyP C03ex.toyStore C03ex.toyCrc C03ex.bundle (C03ex.secBlock [9, 9, 58] false) = .raised := by
+/-- whole block: the tag `apply_bib` computes verifies; a wrong tag fails with reason 15; so does a
+    second result for the same target; a missing target block raises -/
+example : verifyBib C03ex.toyP C03ex.toyStore C03ex.toyCrc C03ex.bundle (C03ex.secBlock [9, 9, 58] false) = .ok ∧
+    verifyBib C03ex.toyP C03ex.toyStore C03ex.toyCrc C03ex.bundle (C03ex.secBlock [9, 9, 0] false) = .failed 15 ∧
+    verifyBib C03ex.toyP C03ex.toyStore C03ex.toyCrc C03ex.bundle (C03ex.secBlock [9, 9, 58] true) = .failed 15 ∧
+    verifyBib C03ex.toyP C03ex.toyStore C03ex.toyCrc C03ex.bundle
+      { C03ex.secBlock [9, 9, 58] false with targets := [7] } = .raised := by
   decide +kernel
 
 /-- the side conditions of `C03_aad_injective` / `C03_input_injective` hold for the instance -/
